@@ -33,7 +33,7 @@ QUEUE_ROLES = {
     ('POOL', 'push_back'): {'do_defer_event': 'submitted / deferred occurrences are appended', 'operator=': 'copy of the pool (field coverage: rule C15.fields)', 'event_pool_t': 'copy constructor of the pool'},
     ('POOL', 'push_front'): {'on_state_entry_completed': 'completion occurrences go before every other pending event'},
     ('POOL', 'erase'): {'do_process_event_pool': 'erase an occurrence already marked as processed'},
-    ('POOL', 'clear'): {'on_entry': 'history_impl: pool reset on (re-)entry of a submachine without history', 'operator=': 'copy of the pool replaces the old content'},
+    ('POOL', 'clear'): {'on_entry': 'history_impl: pool reset on (re-)entry of a submachine without history', 'reset_event_pool': 'history_impl: the same reset as a step of its own, called before the first entry behaviour', 'operator=': 'copy of the pool replaces the old content'},
 }
 
 def member_chain(f, nid, depth=0):
@@ -477,6 +477,8 @@ class FlagAnalysis:
 FLAG_ROLE = {  # function name -> kinds of obligation
     'process_event_internal': 'event', 'process_completion_transition': 'event',
     'start': 'entry', 'do_entry': 'entry', 'on_entry': 'entry', 'on_explicit_entry': 'entry',
+    # the composite exit: its exit behaviours may submit events to the machine that is being left
+    'do_exit': 'exit', 'on_exit': 'exit',
 }
 
 @rule('flag')
@@ -530,6 +532,16 @@ def check_flag_fn(F, E, A, R, top, f, res, role, be, depth):
             if g is not None:
                 gres = A.run(g, init=s)
                 if gres: check_flag_fn(F, E, A, R, top, g, gres, role, be, depth + 1)
+            continue
+        if role == 'exit':
+            # the composite exit (a submachine left by a transition of its container, or stop()): its exit behaviours run while the
+            # machine being left is not marked busy, so an event one of them sends to that machine is dispatched in the middle of the
+            # exit cascade (own rule id: the sites are a known finding of the pinned tree, see DESIGN section 9)
+            if cls & BEHAV:
+                ok = s == 'T'
+                R.ob('C04.exit-flag', ok, {'func': top.q, 'call': n.get('n'), 'at': f.at(i), 'flag_state': s})
+                if not ok:
+                    R.find('C04.exit-flag', top, 'unprotected:' + str(n.get('n')), 'the composite exit calls %s (runs exit behaviours) while the processing flag of the machine being left is %s: an event such a behaviour sends to that machine is dispatched at once, in the middle of the exit cascade (states exited twice, states entered in a machine that is being left)' % (n.get('n'), {'U': 'not set', 'F': 'cleared', 'X': 'not definitely set', 'F0': 'tested false but not set', 'T0': 'set by another step'}.get(s, s)), where=f.at(i))
             continue
         if (cls & (BEHAV | {'EXCEPTION_CAUGHT', 'NO_TRANSITION'})) or core:
             ok = s == 'T'
@@ -1096,3 +1108,43 @@ def seqproto(F, R):
                 ok = c == 1 or (bit and not cmpx)
                 R.ob('C05.seq-protocol', ok, {'func': f.q, 'new_seq_argument': f.expr(a)})
                 if not ok: R.find('C05.seq-protocol', f, 'site', 'the deferred queue is re-offered with new_seq = %s; required: true at start-up, else the bit test HANDLED_TRUE & handled (a guard reject or a deferral must not start a new sequence)' % f.expr(a), where=f.at(i))
+
+@rule('poolreset')
+def poolreset(F, R):
+    """C04.pool-reset (backmp11): the reset of the event pool that belongs to (re-)entering a machine (history policy) happens before
+    the first entry behaviour of that entry sequence runs - otherwise an event the machine's own on_entry submits (it is stored,
+    the machine is marked busy) is wiped by the reset that follows and is never dispatched.  Path rule over the entry drivers of
+    state_machine_base: on no path does a call that reaches an entry behaviour precede a call that reaches a pool clear."""
+    from effects import Effects
+    E = Effects(F)
+    clears = {}
+    def reaches_clear(fk, depth=0):
+        if fk in clears: return clears[fk]
+        clears[fk] = False
+        g = F.bykey.get(fk)
+        if g is None or not g.blocks or depth > 4: return False
+        r = any(q == 'POOL' and op == 'clear' for _i, q, op in queue_ops(g))
+        if not r:
+            for _i, n in g.calls():
+                if 'fk' in n and n.get('org') == 1 and reaches_clear(n['fk'], depth + 1): r = True; break
+        clears[fk] = r
+        return r
+    for f in F.funcs:
+        if backend_of(f) != 'backmp11' or not f.blocks or f.cls != 'state_machine_base': continue
+        if f.n not in ('on_entry', 'on_explicit_entry', 'on_pseudo_entry', 'start'): continue
+        sites = [(i, n) for i, n in f.calls() if 'fk' in n and reaches_clear(n['fk'])]
+        if not sites: continue
+        R.seen(f); R.anchor('pool-reset-driver:' + f.n)
+        bad = None
+        for p in f.paths(edge_bound=1):
+            entered = None
+            for i in f.path_nodes(p):
+                n = f.nodes[i]
+                if not n or n['k'] != 'call': continue
+                if 'fk' in n and reaches_clear(n['fk']):
+                    if entered is not None: bad = (entered, i)
+                elif 'ENTRY' in E.call_classes(f, n) and entered is None: entered = i
+            if bad: break
+        R.ob('C04.pool-reset', bad is None, {'func': f.q, 'reset_sites': [f.expr(i)[:60] for i, n in sites]})
+        if bad:
+            R.find('C04.pool-reset', f, 'entry-before-reset', '%s runs an entry behaviour through %s (%s) and resets the event pool afterwards through %s (%s): an event submitted by that behaviour is stored and then wiped, it is never dispatched' % (f.n, f.expr(bad[0])[:60], f.at(bad[0]), f.expr(bad[1])[:60], f.at(bad[1])), where=f.at(bad[1]))
